@@ -504,9 +504,9 @@ def _per_element(alts):
     """What one iteration contributes, as a Seq term of the loop index (None: not expressible)."""
     out = None
     for a in reversed(alts):
-        if a["exit"][0] != "next" or any(x[0] != "yield" for x in a["trace"]):
+        if a["exit"][0] != "next" or any(x[0] not in ("yield", "yieldfrom") for x in a["trace"]):
             return None
-        ys = [z3.Unit(x[1]) for x in a["trace"]]
+        ys = [z3.Unit(x[1]) if x[0] == "yield" else x[1] for x in a["trace"]]
         val = S.EmptySeq if not ys else (z3.Concat(*ys) if len(ys) > 1 else ys[0])
         dec = a.get("decisions", a["pc"])
         out = val if out is None else z3.If(z3.And(*dec) if dec else z3.BoolVal(True), val, out)
